@@ -26,6 +26,32 @@ class Infra(Exception):
     """Infrastructure failure: exit 2, no verdict."""
 
 
+class Crash(Exception):
+    """The driver process died from a Go panic / fatal error raised inside gnark-crypto code (not in the
+    harness): a behaviour of the real code. Carries the first lines of the report."""
+
+    def __init__(self, msg, output):
+        super().__init__(msg)
+        self.output = output
+
+
+def classify_crash(out):
+    """Returns the panic message if `out` is a Go crash report whose first non-runtime frame of the
+    crashing goroutine is gnark-crypto code, else None."""
+    m = re.search(r"^(panic: .*|fatal error: .*)$", out, re.M)
+    if not m:
+        return None
+    tail = out[m.start():]
+    frames = re.findall(r"^([\w./\-\[\]\*\(\)·]+)\(.*\)\n\t(\S+):\d+", tail, re.M)
+    for fn, path in frames:
+        if fn.startswith(("runtime.", "panic(", "reflect.", "sync.", "internal/")) or "/go-" in path and "/src/" in path:
+            continue
+        if path.startswith(REPO + "/") or "consensys/gnark-crypto" in fn:
+            return m.group(1)[:200]
+        return None
+    return None
+
+
 def log(*a):
     print(*a, flush=True)
 
@@ -77,11 +103,49 @@ class Ctx:
         log("built %s in %.1fs" % (name, time.time() - t))
         return out
 
+    def build_instrumented(self, files, name="harness_instr", tags=("verif",), race=False):
+        """Builds the harness against copies of `files` (paths under /repo) instrumented at check time
+        by tools/instrument (sync-point reporting to utils/verifhook)."""
+        idir = os.path.join(VERIF, "tools", "instrument")
+        tool = os.path.join(self.work, "instrument")
+        if not os.path.exists(tool):
+            sh(["go", "build", "-o", tool, "."], cwd=idir, timeout=600)
+        odir = tempfile.mkdtemp(prefix="instr-", dir=self.work)
+        p = sh([tool, "-out", odir] + [os.path.join(REPO, f) for f in files], timeout=600)
+        ov = json.load(open(make_overlay(self.work)))
+        n = 0
+        for ln in p.stdout.splitlines():
+            o, c, k = ln.split("\t")
+            ov["Replace"][o] = c
+            n += int(k)
+        ovp = os.path.join(self.work, name + "_overlay.json")
+        json.dump(ov, open(ovp, "w"))
+        hdir = os.path.join(VERIF, "harness")
+        shutil.copy(os.path.join(REPO, "go.sum"), os.path.join(hdir, "go.sum"))
+        out = os.path.join(self.work, name)
+        cmd = ["go", "build", "-tags", ",".join(tags), "-overlay", ovp, "-o", out] + (["-race"] if race else []) + ["."]
+        pr = sh(cmd, cwd=hdir, timeout=1800, check=False)
+        if pr.returncode != 0:
+            raise Infra("instrumented harness build failed:\n" + pr.stdout[-6000:])
+        log("built %s with %d sync points in %d files" % (name, n, len(files)))
+        self.extra.setdefault("instrumented_sync_points", 0)
+        self.extra["instrumented_sync_points"] += n
+        return out
+
     def run_harness(self, binary, args, env=None, timeout=1800):
         p = sh([binary] + args, env=env, timeout=timeout, check=False)
         if p.returncode != 0:
+            msg = classify_crash(p.stdout or "")
+            if msg:
+                raise Crash(msg, p.stdout)
             raise Infra("harness %s failed (%d):\n%s" % (" ".join(args), p.returncode, p.stdout[-4000:]))
         return p.stdout
+
+    def crash_violation(self, ex, what):
+        """Records a crash of the driver inside gnark-crypto code as a rejected behaviour."""
+        self.rejected.append({"trace": "(process crash)", "index": 0, "reason": "crash",
+                              "event": {"op": "crash", "what": what, "msg": str(ex), "report": ex.output[-3000:]},
+                              "hdr": {"property": self.prop}})
 
     # -- TLC ------------------------------------------------------------------------------
     def tlc(self, specdir, module, cfg=None, env=None, workers=1, timeout=1800, heap="2g", pure=False,
@@ -312,6 +376,10 @@ def main_wrapper(fn, prop):
     ctx = Ctx(prop, a.tier, seed)
     try:
         rc = fn(ctx)
+    except Crash as ex:
+        # a check that did not handle the crash itself: still a behaviour of the real code
+        ctx.crash_violation(ex, "driver crashed")
+        rc = ctx.finish(rule="driver crashed inside gnark-crypto code before the run completed")
     except Infra as ex:
         log("INFRA-ERROR %s: %s" % (prop, ex))
         rc = 2
